@@ -397,8 +397,8 @@ func init() {
 		Rule:        "one session per case: a side-effect-free function (random typed pure function with closures/loops/generators; closure created before and read after a deep call while its captured variable is updated; 20..300-local function whose loop iterator reads its last local; loops over zipped generators calling returned closures) and an argument tuple; the call is evaluated in 13 dynamic contexts in random order — first statement, argument at recursion depth 1/10/130/1000, while body, for body, inside a generator, twice in one array literal, after a failed statement, after the stack grew by 140..4000 frames, after contexts were created and recycled in the same statement, nested identity calls — interleaved with noise statements; all renderings must be equal to the first and to the reference; plain/tight/pregrown allocation. non-trivial = >= 8 placements compared; distinct by session and stress mode.",
 		Assumptions: []string{"functions whose plain evaluation the reference finds ambiguous are dropped", "global bindings are unchanged between placements by construction (noise uses disjoint names)"},
 		Families: []core.Family{
-			{Name: "placements", Count: countFn(1500, 150000), Run: c03Case},
-			{Name: "uninit", Count: countFn(300, 30000), Run: c03Uninit},
+			{Name: "placements", Count: countFn(1500, 60000), Run: c03Case},
+			{Name: "uninit", Count: countFn(300, 12000), Run: c03Uninit},
 		},
 		Floors: []core.Floor{{Key: "placements_compared", Quick: 12000, Thor: 1200000}, {Key: "tag:placement:", Quick: 19, Thor: 19}, {Key: "tag:function:", Quick: 8, Thor: 8}, {Key: "stack_growths", Quick: 3000, Thor: 300000}, {Key: "context_clone_reuse", Quick: 500, Thor: 50000}},
 	})
